@@ -75,6 +75,8 @@ func paramNamed(cc *ssa.CallCommon, name string) int {
 
 func runC17(c *Ctx) {
 	p := c.Progs["mod"]
+	c.Rule("C17.Y", "compatibility with the party that is not changed with this code: backend records registered by the deployed build: new fields decide nothing", 1)
+	ruleNewWireFieldNotDecisive(c, p, "C17.Y", "a backend registered through the deployed build has the zero value there; a caller whose own value is also the zero value (or anything the comparison accepts for it) passes the check for every such backend", "app/types.Backend")
 	c.Rule("C17.A", "every store access of an agent endpoint is dominated by a successful backend check", 9)
 	c.Rule("C17.B", "the backend ID used is the validated one; the check itself is sound", 14)
 	ruleSentinelComparedRaw(c, p, "C17.B", "app", "app/store", "app/cache")
